@@ -15,7 +15,8 @@ import subprocess
 import sys
 
 prop = sys.argv[1]
-wt = '/tmp/wt-' + prop
+wave = os.environ.get('WAVE', '')          # '' or 'w2'
+wt = '/tmp/{}-{}'.format(wave or 'wt', prop)
 ns = sys.argv[2:] or ['1', '2', '3']
 
 
@@ -68,7 +69,7 @@ for n in ns:
                   'KEEP' if verdict else 'REJECT'))
     if not verdict:
         continue
-    dst = '/verif/seeded/{}-m{}'.format(prop, n)
+    dst = '/verif/seeded/{}-{}m{}'.format(prop, wave, n)
     os.makedirs(dst, exist_ok=True)
     shutil.copy(patch, dst + '/patch.diff')
     shutil.copy('{}/_out/m{}_demo.py'.format(wt, n), dst + '/demo.py')
